@@ -290,12 +290,19 @@ CHECKS["C05"] = dict(
 CHECKS["C17"] = dict(
     explanation="auth.IAMCache (real code: CreateAccount, GetUserAccount, UpdateUserAccount, DeleteUserAccount, icache set/get/update/Delete) over a "
                 "reference account store that may refuse updates, with an arbitrary non-decreasing clock: every history of up to 2 (3) admin calls on one "
-                "access key followed by a lookup after each call - the lookup returns exactly the store's account (all five attributes) or no-such-user.",
+                "access key followed by a lookup after each call - the lookup returns exactly the store's account (all five attributes) or no-such-user. "
+                "H17b: two concurrent requests (create/update/delete/lookup) on one key, the second nested at every store point of the first; a later lookup must "
+                "agree with the store. H17c: auth.IAMServiceInternal (real storeIAM/readIAMData/writeTempFile, JSON round trip) on the file-system model: two "
+                "concurrent account changes on one or two keys, the second nested at every lock acquisition / file-system step of the first (schedules that "
+                "would block on a held lock do not exist); stored accounts and outcomes must equal one sequential order.",
     harnesses=[
         dict(name="H17a-cache", pkgs=["./auth"], entry="auth.VfIAMCache", reach=["lookup-of-existing-account"]),
         dict(name="H17b-race", pkgs=["./auth"], entry="auth.VfIAMRace", reach=["later-lookup-of-existing-account"],
              key_inputs=["first_request", "second_request", "schedule"]),
+        dict(name="H17c-filestore", pkgs=["./auth"], entry="auth.VfIAMFile", redirects="spec/redirects_fs.json", reach=["both-requests-returned"],
+             key_inputs=["first_request", "second_request", "first_key", "second_key"]),
     ],
     assumptions=["time.Now = arbitrary non-decreasing seconds", "single gateway process, sequential calls"],
-    outside=["interleavings of a lookup (miss in flight) with delete/update (H17b: not built)", "the file-backed account store (iam_internal.go)", "other IAM back ends"],
+    outside=["schedules that split both requests (only: one request runs entirely at a scheduling point of the other, or after it)", "more than two concurrent requests",
+             "several gateway processes sharing one account file", "crashes during an account change", "LDAP / Vault / S3 / IPA account stores", "signature check of the request that uses the account (C02)"],
 )
